@@ -1,6 +1,11 @@
-import NxModel.Nex.RmcClientX
+import NxModel.Nex.RmcClientMulti
 import NxModel.DriverUtil
-/-! line-protocol driver for the RMC client call-matching model (stateful; one model object)
+/-! line-protocol driver for the RMC client call-matching model (stateful; a process = a list of model objects, one per
+    live connection, `Nx.RmcClient.lift` applies a line to the selected one)
+  proc               -> ok                      a fresh process holding one fresh connection (number 0), selected
+  conn <i>           -> ok                      select connection <i> of the process (connections up to <i> are created
+                                                fresh when they do not exist yet); every other line acts on the selected
+                                                connection only
   new <nextId> [<k>] -> ok                      fresh client whose `call_id` counter is <nextId>, started with
                                                 <k> protocol servers (default 0)
   hookret | hookraise -> outs                   the executing `server.logout(self)` returned / raised
@@ -137,4 +142,24 @@ def stepLine (d : D) (line : String) : D × String :=
   | ["dump"] => (d, dump d.x.core)
   | _ => (d, "bad-op")
 
-def main : IO Unit := runState { x := xinit 1 0, a := CallSpec.init, hids := true : D } stepLine
+def fresh : D := { x := xinit 1 0, a := CallSpec.init, hids := true }
+
+/-- the process: one model object per connection + the selected connection -/
+structure P where
+  conns : List D
+  cur : Nat
+
+def procLine (p : P) (line : String) : P × String :=
+  match line.splitOn " " with
+  | ["proc"] => ({ conns := [fresh], cur := 0 }, "ok")
+  | ["conn", i] =>
+    match i.toNat? with
+    | some i =>
+      if i < 64 then ({ conns := p.conns ++ List.replicate (i + 1 - p.conns.length) fresh, cur := i }, "ok") else (p, "bad-op")
+    | none => (p, "bad-op")
+  | _ =>
+    match lift stepLine p.conns p.cur line with
+    | (cs, some out) => ({ p with conns := cs }, out)
+    | (_, none) => (p, "bad-op")
+
+def main : IO Unit := runState { conns := [fresh], cur := 0 : P } procLine
